@@ -11,7 +11,7 @@ type In struct {
 	HTML   string `json:"html"`
 	User   string `json:"user,omitempty"` // user-origin style sheet
 	Engine string `json:"engine,omitempty"`
-	Kind   string `json:"kind"` // "ow-table" | "pair-table" | "random"
+	Kind   string `json:"kind"`           // "ow-table" | "pair-table" | "random"
 	Skip   string `json:"skip,omitempty"` // table entry kept out of the verdict: name of the finding in findings/C12
 
 	Rules     []Rule `json:"rules"`                // every @page rule, author sheet first (in order), then user sheet
@@ -25,14 +25,14 @@ type In struct {
 type Item struct {
 	Kind string `json:"k"` // leaf | para | box
 	ID   string `json:"id"`
-	H    int    `json:"h,omitempty"`  // leaf: height in px
-	N    int    `json:"n,omitempty"`  // para: number of lines
-	LH   int    `json:"lh,omitempty"` // para: line height in px
-	Orph int    `json:"o,omitempty"`  // para: orphans (0 = not declared = 2)
-	Wid  int    `json:"w,omitempty"`  // para: widows (0 = not declared = 2)
+	H    int    `json:"h,omitempty"`   // leaf: height in px
+	N    int    `json:"n,omitempty"`   // para: number of lines
+	LH   int    `json:"lh,omitempty"`  // para: line height in px
+	Orph int    `json:"o,omitempty"`   // para: orphans (0 = not declared = 2)
+	Wid  int    `json:"w,omitempty"`   // para: widows (0 = not declared = 2)
 	Hid  bool   `json:"hid,omitempty"` // leaf: overflow:hidden (monolithic by definition)
 	Ctr  bool   `json:"ctr,omitempty"` // para of one line whose text is generated (::before counter(page)/counter(pages))
-	BB   string `json:"bb,omitempty"` // break-before, canonical value ("" = auto)
+	BB   string `json:"bb,omitempty"`  // break-before, canonical value ("" = auto)
 	BA   string `json:"ba,omitempty"`
 	BI   string `json:"bi,omitempty"`
 	Page string `json:"pg,omitempty"` // page: <name>
